@@ -536,12 +536,31 @@ def parse_output(r):
     cur = {}
     opstart = {}
     r.piece_failed = []
-    for line in r.stdout.split("\n"):
+    lines = r.stdout.split("\n")
+    r.truncated = False
+    if lines and lines[-1] != "":
+        # the process died (killed at the time limit, emulated crash, abort) in the middle of a line: that line is not evidence
+        lines = lines[:-1]; r.truncated = True
+    for line in lines:
+        try:
+            parse_line(r, line, cur, opstart)
+        except (ValueError, IndexError):
+            if r.rc == 0:
+                raise                                            # a run that returned normally never prints a malformed line
+            r.truncated = True
+    for thread, (h, segs) in sorted(cur.items()):
+        r.solves.append((thread, h, segs, "inflight"))      # the run died while this piece was being evaluated
+        r.piece_failed.append(False)
+    if r.result is None:
+        r.result = "timeout" if r.rc == "timeout" else ("crash" if r.crashed is not None else "abort")
+
+def parse_line(r, line, cur, opstart):
+    if True:
         m = PROGRESS.search(line)
         if m and line.startswith("Availability"):
             r.counters.append((int(m.group(1)), int(m.group(2)), int(m.group(3))))
             r.progress_total = int(m.group(4))
-            continue
+            return
         if line.startswith("CWD "):
             r.cwd_changed = line.split()[1] != "same"
         if line.startswith("RESULT "):
@@ -575,11 +594,6 @@ def parse_output(r):
                     r.piece_failed.append(any(op[0] == thread and (op[4] == "err" or op[4].startswith("part")) for op in r.ops[opstart.get(thread, 0):]))
             elif t[0] == "crash":
                 r.crashed = (int(t[1]), int(t[2]))
-    for thread, (h, segs) in sorted(cur.items()):
-        r.solves.append((thread, h, segs, "inflight"))      # the run died while this piece was being evaluated
-        r.piece_failed.append(False)
-    if r.result is None:
-        r.result = "timeout" if r.rc == "timeout" else ("crash" if r.crashed is not None else "abort")
 
 def op_tokens(op):
     thread, kind, path, extra, ok = op
